@@ -5,6 +5,7 @@ import Driver.Wire
 import Driver.C13
 import Driver.Header
 import Driver.C15
+import Driver.C16
 import Driver.C19
 import Driver.C17
 import Driver.C14
@@ -32,6 +33,7 @@ def dispatch (line : String) : String :=
     else if op.startsWith "c19." then Driver.C19.handle toks
     else if op.startsWith "h." then Driver.Header.handle toks
     else if op.startsWith "c15." then Driver.C15.handle toks
+    else if op.startsWith "c16." then Driver.C16.handle toks
     else "bad-op"
 
 partial def loop (h : IO.FS.Stream) (out : IO.FS.Stream) : IO Unit := do
